@@ -26,8 +26,8 @@ Proof. reflexivity. Qed.
 
 (* ---- call skeletons ---- *)
 Lemma link_doreq_calls :
-  C01_Gen.doreq_calls = ["b.accept"; "fallback"; "return"; "return"; "defer:func"; "{"; "recover"; "b.markFailure";
-                         "panic"; "}"; "req"; "acceptable"; "b.markSuccess"; "b.markFailure"; "return"]%string.
+  C01_Gen.doreq_calls = ["b.accept"; "fallback"; "return"; "return"; "defer:func"; "{"; "b.markFailure"; "}";
+                         "req"; "acceptable"; "b.markSuccess"; "b.markFailure"; "return"]%string.
 Proof. reflexivity. Qed.
 Lemma link_accept_calls :
   C01_Gen.accept_calls = ["b.history"; "float64"; "float64"; "float64"; "math.Max"; "return";
